@@ -135,6 +135,39 @@ var hostileVarints = func() [][]byte {
 	return out
 }()
 
+// structuralMutants re-encodes the datum with one structural site (block count, sized
+// block header, union selector, length) replaced by hostile values: values that agree
+// with a valid one modulo 2^32, huge counts together with huge sizes, extreme lengths.
+func structuralMutants(r *Run, s avro.Schema, d *Datum, ch *Choice, budget int) [][]byte {
+	hostile = &hostilePlan{Site: -1}
+	encodeDatum(s, d, ch)
+	n := hostile.Seen
+	hostile = nil
+	if n == 0 {
+		return nil
+	}
+	singles := []int64{1 << 32, 1<<32 + 1, 1<<32 + 2, -(1 << 32), 1<<40 + 1, 1 << 33, math.MinInt64, math.MaxInt64, -1, 1 << 31, 1 << 40, 1<<31 - 1, 1 << 22, 3, 2}
+	pairs := [][2]int64{{-(1 << 22), 1 << 40}, {-(1 << 30), 1 << 31}, {-(1 << 20), 1 << 20}, {-(1 << 62), 1 << 62}, {math.MinInt64, math.MaxInt64},
+		{-5, -3}, {-5, math.MaxInt64}, {-(1 << 26), 1 << 26}, {-(1 << 40), 1 << 40}, {-1, 1 << 40}, {-(1 << 22), 0}}
+	var out [][]byte
+	for k := 0; k < budget; k++ {
+		pl := &hostilePlan{Site: r.Rng.Intn(n)}
+		if r.Rng.Intn(2) == 0 {
+			pl.Single = specVarint(singles[r.Rng.Intn(len(singles))])
+		} else {
+			pr := pairs[r.Rng.Intn(len(pairs))]
+			pl.Pair = append(specVarint(pr[0]), specVarint(pr[1])...)
+			pl.Single = specVarint(singles[r.Rng.Intn(len(singles))])
+		}
+		hostile = pl
+		m := encodeDatum(s, d, ch)
+		hostile = nil
+		r.Count("structural/" + pl.Hit)
+		out = append(out, m)
+	}
+	return out
+}
+
 func mutants(r *Run, enc []byte, budget int) [][]byte {
 	var out [][]byte
 	add := func(b []byte) { out = append(out, b) }
@@ -274,13 +307,14 @@ func runC06(r *Run) {
 	for i := 0; i < nbase && !tooSlow(r); i++ {
 		s := genSchema(r.Rng, SchemaGenCfg{MaxDepth: 1 + r.Rng.Intn(3)})
 		d := genDatum(r.Rng, s)
-		enc := encodeDatum(s, d, genChoice(r.Rng, s, d))
+		ch := genChoice(r.Rng, s, d)
+		enc := encodeDatum(s, d, ch)
 		g := compatTarget(r.Rng, s)
 		if _, err := schemaCodec(s, g); err != nil {
 			continue
 		}
 		zw := hasZeroWidthItems(s)
-		ms := mutants(r, enc, per)
+		ms := append(structuralMutants(r, s, d, ch, r.N(14, 40)), mutants(r, enc, per)...)
 		if zw && len(ms) > 12 {
 			// zero-width items are a recorded finding (count-driven loops): a handful of
 			// mutants is enough to show it, every one that hits it costs a full deadline
